@@ -18,11 +18,10 @@ Cfg(routes, tables) == [routes |-> routes, tables |-> tables]
 Dsts == {"any", "n14", "n12", "h1"}
 AllRoutes == [dst : Dsts, hop : {"gA", "gB"}]
 
-(* R1: route sets; the device may hold two routes to one destination *)
+(* R1: route sets; device and target may hold two routes to one destination *)
 R1 ==
   \E ra \in SUBSET AllRoutes, rb \in SUBSET AllRoutes :
     /\ Cardinality(ra) <= MaxLen /\ Cardinality(rb) <= MaxLen /\ rb # {}
-    /\ \A r, q \in rb : r.dst = q.dst => r = q
     /\ dev = Cfg(ra, [filter |-> [INPUT |-> Chain("DROP", <<>>)]])
     /\ tgt = Cfg(rb, [filter |-> [INPUT |-> Chain("DROP", <<>>)]])
 
